@@ -58,3 +58,17 @@ func (i *InMemCollector) VerifQueueLens() [][2]int {
 	}
 	return out
 }
+
+// VerifBufferedTraceIDsQuiescent is VerifBufferedTraceIDs without the pause
+// handshake. It may only be called while every collector goroutine is durably
+// blocked (after testing/synctest.Wait in a bubble), because it reads the
+// workers' unsynchronised caches directly.
+func (i *InMemCollector) VerifBufferedTraceIDsQuiescent() [][]string {
+	out := make([][]string, len(i.workers))
+	for idx, w := range i.workers {
+		for _, t := range w.cache.GetAll() {
+			out[idx] = append(out[idx], t.TraceID)
+		}
+	}
+	return out
+}
